@@ -100,6 +100,11 @@ GroupLaws(k, g) ==
                  /\ SumCounts(sum.v[4].v) = n
                  /\ \A i \in 1..Len(sum.v[4].v) : SmallOf(sum.v[4].v[i][2]) > 0
      /\ \A x \in DOMAIN pel : CStat(grp, pel[x].c) \in {"yes", "dev"} /\ pel[x].n >= 1
+     (* XINFO GROUPS shows the same pending total and the group's position *)
+     /\ LET xg == R1("XINFO", <<L_XINFO, L_GROUPS, k>>) IN
+          /\ xg.t = "mapset" /\ Len(xg.v) = Cardinality(DOMAIN K[k].v.groups)
+          /\ \E i \in 1..Len(xg.v) : /\ xg.v[i].v[1][2] = RBulk(g) /\ xg.v[i].v[3][2] = RInt(n)
+                                      /\ xg.v[i].v[4][2] = RBulk(IdBytes(grp.ld))
      /\ grp.skew = {}
      /\ \A c \in DOMAIN grp.cons :
           Len(R1("XPENDING", <<L_XPENDING, k, g, L_minus, L_plus, <<49, 48, 48>>, c>>).v) = Cardinality(OwnedBy(pel, c))
@@ -109,6 +114,11 @@ StreamLaws(k) ==
   /\ \A i \in 1..(n - 1) : IdLt(es[i].id, es[i + 1].id)
   /\ \A i \in 1..n : IdLe(es[i].id, v.last) /\ es[i].id # ZeroId
   /\ R1("XRANGE", <<L_XRANGE, k, L_minus, L_plus>>) = REnts(es)
+  (* XINFO STREAM shows the same length, the number of groups, and the first and last present entries *)
+  /\ LET xi == R1("XINFO", <<L_XINFO, L_STREAM, k>>) IN
+       /\ xi.t = "infomap" /\ xi.v[1][2] = RInt(n) /\ xi.v[3][2] = RInt(Cardinality(DOMAIN v.groups))
+       /\ n > 0 => (xi.v[4][2] = REnt(es[1]) /\ xi.v[5][2] = REnt(es[n]))
+       /\ Match(xi.v[2][2], [t |-> "bulk", v |-> IdBytes(v.last)])
   /\ R1("XREVRANGE", <<L_XREVRANGE, k, L_plus, L_minus>>) = REnts(Rev(es))
   /\ R1("XREAD", <<L_XREAD, L_STREAMS, k, <<48, 45, 48>>>>) = (IF n = 0 THEN RNilArr ELSE RArr(<<RArr(<<RBulk(k), REnts(es)>>)>>))
   /\ R1("XREAD", <<L_XREAD, L_STREAMS, k, L_dollar>>) = RNilArr
